@@ -1,0 +1,31 @@
+//go:build verif
+
+package fn1
+
+// Contracts for package fn1, checked by /verif/govc.  Comment-only file.
+//
+// Arrow combinators (arrow1.go, arrow_func_gen.go).  Every position has its own type
+// parameter; EqT also fixes the number and the (left to right) order of the calls to f1 … fN.
+
+//@ import "github.com/csgura/fp"
+//
+// ---- Merge{N}(f1, …, fN)(a) = (f1(a), …, fN(a)) ------------------------------------------
+//
+//@ lemma mergeDef[A, A1, A2 any](f1 func(A) A1, f2 func(A) A2, a A)
+//@   prop C14
+//@   ensures EqT(verifspec.P2(Merge(f1, f2)(a)), verifspec.P2(f1(a), f2(a)))
+//
+//@ schema N=2..9
+//@ lemma merge{N}Def[A, <<i=1..N|, |A$i>> any](<<i=1..N|, |f$i func(A) A$i>>, a A)
+//@   prop C14
+//@   ensures EqT(Merge{N}(<<i=1..N|, |f$i>>)(a), fp.Tuple{N}[<<i=1..N|, |A$i>>]{<<i=1..N|, |I$i: f$i(a)>>})
+//@ schema end
+//
+// ---- First / Second / Split --------------------------------------------------------------
+//
+//   First(f)(b, d) = (f(b), d);  Second(f)(d, b) = (d, f(b));  Split(f1, f2)(a, c) = (f1(a), f2(c))
+//@ lemma arrowDef[B, C, D, E any](f func(B) C, g func(D) E, b B, d D)
+//@   prop C14
+//@   ensures EqT(verifspec.P2(First[D](f)(b, d)), verifspec.P2(f(b), d))
+//@   ensures EqT(verifspec.P2(Second[D](f)(d, b)), verifspec.P2(d, f(b)))
+//@   ensures EqT(verifspec.P2(Split(f, g)(b, d)), verifspec.P2(f(b), g(d)))
